@@ -33,7 +33,12 @@ RULE = ("random systems: grids nx,ny in 1..8 (n = nx*ny cells), m in 1..40 obser
         "all-zero (own class), emissivity scale 1e-3..1e8; SART: initial guess None / float / int / array / zeros / exact "
         "solution / partly negative, relaxation 0.1..1.9, max_iterations 1..300, conv_tol 0..1e-2, beta_laplace 0..0.5 with "
         "4-/8-neighbour grid Laplacians, identity, zero; NNLS/LSQ: alpha 0..10 and 1e-11, Tikhonov None / identity / "
-        "Laplacian / demo idiom with 1e10 columns / dense / singular diagonal / zero.  A case is non-trivial when a "
+        "Laplacian / demo idiom with 1e10 columns / dense / singular diagonal / zero.  Every argument is additionally "
+        "handed over in the representations a NumPy user passes (same values, quantised where needed): W as int64 / int32 / "
+        "uint8 / bool / float32 / Fortran / non-contiguous view / nested list, b as int64 / float32 / list / view, Tikhonov "
+        "and Laplacian as int / float32 / list / strided, alpha as int / numpy scalars, initial guesses as bool / numpy "
+        "scalars / int / float32 / list / view; what the unchanged code refuses with a clean TypeError/ValueError is a "
+        "counted skip class.  A case is non-trivial when a "
         "deciding comparison (iterate, KKT / normal-equation certificate) was evaluated on a system with W != 0, b != 0; "
         "distinct = distinct system recipes")
 LEVEL_TEXT = ("Exploration by runtime reference-model monitoring: every generated system is solved by the real functions and "
@@ -45,8 +50,12 @@ LEVEL_NOTE = ("trusted: the NumPy transcription of the docstring formula (terms 
               "tolerances; 'minimiser' is judged to 1e-8 relative gradient accuracy")
 TECHNIQUE = ("runtime monitoring: executable reference model in lock-step (SART iterates, convergence list, stopping rule) + "
              "postcondition certificates (non-negativity, KKT, normal equations, residual-norm consistency) on every call")
-ASSUMPTIONS = ["geometry matrices are float64 ndarrays with non-negative entries, measurement vectors float64 ndarrays",
-               "initial guesses are None, Python float/int, numpy.float64 or float64 arrays; max_iterations >= 1; 0 < relaxation < 2",
+ASSUMPTIONS = ["geometry matrices have non-negative entries; all oracles work in float64 on the float64-converted input values",
+               "input representations refused by the unchanged code with a clean TypeError/ValueError (non-float64 buffers in "
+               "sart.pyx, numpy-scalar / list initial guesses, list Tikhonov matrices) are outside the statement: counted, not judged",
+               "matrices given in single precision (float32; for the SVD wrapper also bool/uint8, which LAPACK maps to 's') may "
+               "be processed in single precision: certificates are then judged to 1e-3 instead of 1e-8",
+               "max_iterations >= 1; 0 < relaxation < 2",
                "for zero-length rays / unseen cells the docstring formula is read as 'no contribution'",
                "a minimiser is certified to relative gradient accuracy 1e-8 (scale |C|^2|x| + |C||d|)",
                "for b = 0 the SART stopping measure is 0/0: only 'returns some iterate of the rule / stays at 0' is judged",
@@ -65,6 +74,7 @@ REQUIRED = {"sart_iterate": 1000, "csart_iterate": 800, "sart_conv": 500, "csart
 
 AMPLIFY_LIMIT = 1e-6     # lock-step comparison is skipped when the propagated rounding bound exceeds this x scale
 GRAD_RTOL = 1e-8
+GRAD_RTOL32 = 1e-3      # certificates when a matrix is given in single precision (pinv / alpha*L then run in float32: ~ n * cond * eps32)
 
 
 # ------------------------------------------------------------------------------------------------
@@ -147,7 +157,54 @@ def gen_case(rng, tier):
         case["alpha"] = 0.0 if r < 0.15 else 0.01 if r < 0.35 else float(10 ** rng.uniform(-4, 1))
         if case["tikkind"] == "lap_unseen" and rng.random() < 0.7:
             case["alpha"] = 1e-11
+    _gen_reps(rng, case)
     return case
+
+
+# Representations of the same values a NumPy user would pass.  REJECTED lists what the *unchanged* code refuses with a
+# clean TypeError / ValueError (typed memoryviews in sart.pyx want float64 buffers, `alpha * list` is not defined):
+# the statement is silent there, such cases are driven at a low rate, counted as skip classes and not judged (if a
+# changed tree accepts them, the result is judged by the same oracles on the float64-converted values).
+REJECTED = {
+    ("sart", "W"): {"int64", "int32", "uint8", "bool", "float32"}, ("sart", "b"): {"int64", "float32", "list"},
+    ("sart", "x0"): {"int64", "float32", "list", "npfloat32", "npint64"},
+    ("csart", "W"): {"int64", "int32", "uint8", "bool", "float32"}, ("csart", "b"): {"int64", "float32", "list"},
+    ("csart", "x0"): {"int64", "float32", "list", "npfloat32", "npint64"},
+    ("nnls", "T"): {"list"}, ("lstsq", "T"): {"list"},
+}
+ARGNAME = {"W": "geometry-matrix", "b": "measurement", "T": "tikhonov", "x0": "initial-guess", "alpha": "alpha"}
+
+
+def _gen_reps(rng, case):
+    solver = case["solver"]
+    reps = {}
+    if solver in ("sart", "csart"):
+        reps["W"] = _pick(rng, ["f64", "view", "T", "int64", "float32", "bool"], [0.78, 0.12, 0.06, 0.02, 0.015, 0.005])
+        reps["b"] = _pick(rng, ["f64", "view", "int64", "float32", "list"], [0.87, 0.10, 0.01, 0.01, 0.01])
+        if solver == "csart":
+            reps["T"] = _pick(rng, ["f64", "int64", "int32", "float32", "list", "F", "view"],
+                              [0.50, 0.15, 0.05, 0.12, 0.08, 0.05, 0.05])
+        k = case["x0kind"]
+        if k in ("array", "zeros", "exact", "array_neg"):
+            reps["x0"] = _pick(rng, ["f64", "view", "int64", "float32", "list"], [0.84, 0.10, 0.02, 0.02, 0.02])
+        elif k == "float":
+            reps["x0"] = _pick(rng, ["f64", "npfloat32"], [0.95, 0.05])
+        elif k == "int":
+            reps["x0"] = _pick(rng, ["f64", "bool", "npint64"], [0.80, 0.15, 0.05])
+    elif solver in ("nnls", "lstsq"):
+        reps["W"] = _pick(rng, ["f64", "int64", "int32", "float32", "bool", "uint8", "view", "T"],
+                          [0.46, 0.13, 0.07, 0.10, 0.06, 0.03, 0.10, 0.05])
+        reps["b"] = _pick(rng, ["f64", "int64", "float32", "list", "view"], [0.60, 0.12, 0.10, 0.10, 0.08])
+        if case["tikkind"] != "none":
+            reps["T"] = _pick(rng, ["f64", "int64", "int32", "float32", "F", "view", "list"],
+                              [0.50, 0.17, 0.05, 0.12, 0.06, 0.06, 0.04])
+        reps["alpha"] = _pick(rng, ["f64", "pyint", "npfloat32", "npint64"], [0.80, 0.08, 0.08, 0.04])
+    else:
+        reps["W"] = _pick(rng, ["f64", "int64", "int32", "float32", "bool", "uint8", "view", "T", "list"],
+                          [0.38, 0.14, 0.06, 0.10, 0.05, 0.03, 0.10, 0.06, 0.08])
+        reps["b"] = _pick(rng, ["f64", "int64", "float32", "view"], [0.64, 0.14, 0.12, 0.10])
+    case["reps"] = {k: v for k, v in reps.items() if v != "f64"}
+    case["q"] = int(_pick(rng, [1, 3, 20, 1000], [0.25, 0.2, 0.35, 0.2]))
 
 
 def fixed_cases(tier):
@@ -213,21 +270,101 @@ def _classes(case, ctx, W, b):
         ctx.cls("rank_deficient")
 
 
+class _Keyed:
+    """ctx proxy that appends the input-representation tag to every violation key (mechanism = clause + representation)."""
+
+    def __init__(self, ctx, suffix):
+        self._c, self._s = ctx, suffix
+
+    def __getattr__(self, name):
+        return getattr(self._c, name)
+
+    def check(self, ok, key, what, monitor=None, **detail):
+        return self._c.check(ok, key + self._s, what, monitor=monitor or key.split(":")[0], **detail)
+
+    def close(self, got, want, key, what, monitor=None, **kw):
+        return self._c.close(got, want, key + self._s, what, monitor=monitor or key.split(":")[0], **kw)
+
+    def viol(self, key, what, plain=False, **detail):
+        return self._c.viol(key if plain else key + self._s, what, **detail)
+
+
+def _rep_tag(case):
+    reps = case.get("reps", {})
+    parts = []
+    for arg in ("W", "b", "T", "x0", "alpha"):
+        if arg in reps:
+            name = ARGNAME[arg] if not (arg == "T" and case["solver"] == "csart") else "laplacian"
+            parts.append("%s-%s" % (rm.rep_family(reps[arg]), name))
+    return (":" + "+".join(parts)) if parts else ""
+
+
+def _rejected(case):
+    """(arg, rep) pairs of this case that the unchanged code refuses with a clean TypeError / ValueError."""
+    reps = case.get("reps", {})
+    return [(a, r) for a, r in reps.items() if r in REJECTED.get((case["solver"], a), ())]
+
+
+def _f32(case, *args):
+    """single-precision data among the named arguments: the computation may legitimately run in single precision"""
+    reps = case.get("reps", {})
+    return any(reps.get(a) in ("float32",) for a in args)
+
+
 def run_case(case, ctx):
-    W = rm.build_w(case)
-    b, xt = rm.build_b(case, W)
+    reps = case.get("reps", {})
+    q = int(case.get("q", 20))
+    W = rm.rep_values(rm.build_w(case), reps.get("W"), q)          # float64 values the oracle works on
+    b0, xt = rm.build_b(case, W)
+    b = rm.rep_values(b0, reps.get("b"), 100)
+    Wa, ba = rm.represent(W, reps.get("W")), rm.represent(b, reps.get("b"))   # objects handed to the real code
     _classes(case, ctx, W, b)
+    for a, r in reps.items():
+        ctx.cls("rep:%s=%s" % (a, r))
+    kctx = _Keyed(ctx, _rep_tag(case))
     solver = case["solver"]
-    if solver in ("sart", "csart"):
-        _run_sart(case, ctx, W, b, xt)
-    elif solver == "nnls":
-        _run_nnls(case, ctx, W, b)
-    elif solver == "lstsq":
-        _run_lstsq(case, ctx, W, b)
-    elif solver == "svd":
-        _run_svd(case, ctx, W, b)
-    else:
-        raise ValueError(solver)
+    rej = _rejected(case)
+    try:
+        if solver in ("sart", "csart"):
+            _run_sart(case, kctx, W, b, xt, Wa, ba, bool(np.array_equal(b, b0)))
+        elif solver == "nnls":
+            _run_nnls(case, kctx, W, b, Wa, ba)
+        elif solver == "lstsq":
+            _run_lstsq(case, kctx, W, b, Wa, ba)
+        elif solver == "svd":
+            _run_svd(case, kctx, W, b, Wa, ba)
+        else:
+            raise ValueError(solver)
+    except _Refused:
+        ctx.skip("input representation refused by %s with a clean TypeError/ValueError (statement silent, not judged)" % solver)
+        for ar in rej:
+            ctx.cls("refused:%s:%s=%s" % ((solver,) + ar))
+
+
+class _Refused(Exception):
+    pass
+
+
+def _call(case, f):
+    """Run the real function; a clean TypeError / ValueError for a representation the unchanged code refuses is not judged."""
+    rej = _rejected(case)
+    with warnings.catch_warnings(), np.errstate(all="ignore"):
+        warnings.simplefilter("ignore")
+        if not rej:
+            return f()
+        try:
+            return f()
+        except (TypeError, ValueError) as e:
+            raise _Refused(type(e).__name__) from None
+
+
+def _unchanged(arg, vals):
+    """the object handed over still holds the same values"""
+    try:
+        a = np.asarray(arg, dtype=float)
+    except (TypeError, ValueError):
+        return False
+    return a.shape == vals.shape and bool(np.array_equal(a, vals))
 
 
 # ---- SART --------------------------------------------------------------------------------------
@@ -235,32 +372,46 @@ def run_case(case, ctx):
 def _initial_guess(case, n, xt):
     """Returns (argument passed to the real function, start vector of the documented rule)."""
     k = case["x0kind"]
+    rep = case.get("reps", {}).get("x0")
     if k == "none":
         return None, np.full(n, np.exp(-1))
     if k == "float":
         v = float(case["x0val"])
+        if rep == "npfloat32":
+            a = np.float32(v)
+            return a, np.full(n, float(a))
         return v, np.full(n, v)
     if k == "int":
         v = int(case["x0val"])
+        if rep == "bool":
+            a = bool(v)
+            return a, np.full(n, float(a))
+        if rep == "npint64":
+            return np.int64(v), np.full(n, float(v))
         return v, np.full(n, float(v))
     if k == "npfloat":
         v = np.float64(case["x0val"])
         return v, np.full(n, float(v))
     if k == "zeros":
-        return np.zeros(n), np.zeros(n)
-    if k == "exact":
-        return xt.copy(), xt.copy()
-    rng = np.random.default_rng([int(case["bseed"]), 1104])
-    if k == "array":
-        a = rng.random(n) * 2 * float(case.get("xscale", 1.0))
-    elif k == "array_neg":
-        a = rng.normal(size=n) * float(case.get("xscale", 1.0))
+        a = np.zeros(n)
+    elif k == "exact":
+        a = xt.copy()
     else:
-        raise ValueError(k)
-    return a.copy(), a.copy()
+        rng = np.random.default_rng([int(case["bseed"]), 1104])
+        if k == "array":
+            a = rng.random(n) * 2 * float(case.get("xscale", 1.0))
+        elif k == "array_neg":
+            a = rng.normal(size=n) * float(case.get("xscale", 1.0))
+        else:
+            raise ValueError(k)
+    vals = rm.rep_values(a, rep, 100)
+    arg = rm.represent(vals, rep)
+    if rep in (None, "f64"):
+        arg = vals.copy()
+    return arg, vals.copy()
 
 
-def _run_sart(case, ctx, W, b, xt):
+def _run_sart(case, ctx, W, b, xt, Wa, ba, b_exact):
     from cherab.tools.inversions import invert_sart, invert_constrained_sart
     fn = case["solver"]
     m, n = W.shape
@@ -268,21 +419,23 @@ def _run_sart(case, ctx, W, b, xt):
     omega = float(case["relaxation"])
     ctol = float(case["conv_tol"])
     beta = float(case.get("beta", 0.0))
-    L = rm.grid_laplacian(case["nx"], case["ny"], case["lapkind"]) if fn == "csart" else None
+    reps = case.get("reps", {})
+    L = La = None
+    if fn == "csart":
+        L = rm.rep_values(rm.grid_laplacian(case["nx"], case["ny"], case["lapkind"]), reps.get("T"), int(case.get("q", 20)))
+        La = rm.represent(L, reps.get("T"))
     arg0, x0 = _initial_guess(case, n, xt)
+    x_exact = case["x0kind"] == "exact" and bool(np.array_equal(x0, xt)) and b_exact
     bzero = not b.any()
     ctx.cls("x0:" + case["x0kind"])
     if fn == "csart":
         ctx.cls("lap:" + case["lapkind"])
-    Wc, bc = W.copy(order="K"), b.copy()
     try:
-        with warnings.catch_warnings(), np.errstate(all="ignore"):
-            warnings.simplefilter("ignore")
-            if fn == "sart":
-                res = invert_sart(W, b, initial_guess=arg0, max_iterations=K, relaxation=omega, conv_tol=ctol)
-            else:
-                res = invert_constrained_sart(W, L, b, initial_guess=arg0, max_iterations=K, relaxation=omega,
-                                              beta_laplace=beta, conv_tol=ctol)
+        if fn == "sart":
+            res = _call(case, lambda: invert_sart(Wa, ba, initial_guess=arg0, max_iterations=K, relaxation=omega, conv_tol=ctol))
+        else:
+            res = _call(case, lambda: invert_constrained_sart(Wa, La, ba, initial_guess=arg0, max_iterations=K,
+                                                              relaxation=omega, beta_laplace=beta, conv_tol=ctol))
     except ZeroDivisionError as e:
         if not bzero:
             raise
@@ -290,7 +443,7 @@ def _run_sart(case, ctx, W, b, xt):
         ctx.viol("%s:zero-measurement-raises" % fn,
                  "%s raises ZeroDivisionError for an all-zero measurement vector (x = 0 is an exact non-negative solution; "
                  "the update rule is well defined)" % ("invert_sart" if fn == "sart" else "invert_constrained_sart"),
-                 error=str(e))
+                 plain=True, error=str(e))
         return
     ok = (isinstance(res, tuple) and len(res) == 2 and isinstance(res[0], np.ndarray) and res[0].shape == (n,)
           and isinstance(res[1], list) and 1 <= len(res[1]) <= K)
@@ -299,8 +452,8 @@ def _run_sart(case, ctx, W, b, xt):
         return
     sol = np.array(res[0], dtype=float)
     conv = [float(c) for c in res[1]]
-    ctx.check(np.array_equal(W, Wc) and np.array_equal(b, bc), "%s:inputs-modified" % fn,
-              "geometry matrix or measurement vector modified by the solver", monitor="%s_inputs" % fn)
+    ctx.check(_unchanged(Wa, W) and _unchanged(ba, b) and (La is None or _unchanged(La, L)), "%s:inputs-modified" % fn,
+              "geometry matrix, Laplacian or measurement vector modified by the solver", monitor="%s_inputs" % fn)
     # non-negativity (at least one clipped update was made)
     ctx.check(not bool((sol < 0).any()), "%s:negative-component" % fn, "returned solution has a negative component",
               monitor="%s_nonneg" % fn, minimum=float(np.nanmin(sol)) if sol.size else 0.0)
@@ -383,7 +536,7 @@ def _run_sart(case, ctx, W, b, xt):
               atol=t, monitor="%s_iterate" % fn, iterations=nref, g=ref.g)
     ctx.nontrivial(bool(W.any()))
     # fixed point clause
-    if case["x0kind"] == "exact":
+    if x_exact:
         applies = (fn == "sart") or beta == 0.0 or (case["xkind"] == "const" and case["lapkind"] in ("lap4", "lap8", "zero"))
         if applies:
             ctx.close(sol, xt, "%s:fixed-point-moved" % fn,
@@ -397,18 +550,34 @@ def _run_sart(case, ctx, W, b, xt):
 
 # ---- regularised least squares ----------------------------------------------------------------
 
-def _tau(nC, nx, nd):
-    return GRAD_RTOL * (nC * nC * nx + nC * nd)
+def _tau(nC, nx, nd, rtol=GRAD_RTOL):
+    return rtol * (nC * nC * nx + nC * nd)
 
 
-def _run_nnls(case, ctx, W, b):
+def _tik_alpha(case, W):
+    """(Tikhonov values, Tikhonov argument, alpha value, alpha argument) in the case's representations."""
+    reps = case.get("reps", {})
+    T0 = rm.build_tikhonov(case, W)
+    T = Ta = None
+    if T0 is not None:
+        T = rm.rep_values(T0, reps.get("T"), int(case.get("q", 20)))
+        Ta = rm.represent(T, reps.get("T"))
+    a = float(case["alpha"])
+    ar = reps.get("alpha")
+    aa = int(round(a)) if ar == "pyint" else np.int64(round(a)) if ar == "npint64" else np.float32(a) if ar == "npfloat32" else a
+    return T, Ta, float(aa), aa
+
+
+def _run_nnls(case, ctx, W, b, Wa, ba):
     from cherab.tools.inversions import invert_regularised_nnls
-    T = rm.build_tikhonov(case, W)
-    alpha = float(case["alpha"])
+    T, Ta, alpha, alpha_arg = _tik_alpha(case, W)
+    # single-precision matrices may legitimately be processed in single precision (alpha * float32 array is float32)
+    single = _f32(case, "W", "T")
+    rtol = GRAD_RTOL32 if single else GRAD_RTOL
+    relax = rtol / GRAD_RTOL
     ctx.cls("tik:" + case["tikkind"])
     ctx.cls("alpha:" + ("0" if alpha == 0 else "tiny" if alpha < 1e-6 else "pos"))
     bzero = not b.any()
-    Wc, bc, Tc = W.copy(order="K"), b.copy(), None if T is None else T.copy()
     # argument recorder on the third-party solver the wrapper documents to call: used ONLY to attribute a failed
     # certificate to its mechanism (wrapper built the wrong system / scaled the norm wrongly, or scipy.optimize.nnls
     # itself returned a non-minimiser for the system it was given); the verdict is always taken on the wrapper's result
@@ -422,10 +591,9 @@ def _run_nnls(case, ctx, W, b):
         return out
     so.nnls = spy
     try:
-        with warnings.catch_warnings(), np.errstate(all="ignore"):
-            warnings.simplefilter("ignore")
+        if True:
             try:
-                res = invert_regularised_nnls(W, b, alpha=alpha, tikhonov_matrix=T)
+                res = _call(case, lambda: invert_regularised_nnls(Wa, ba, alpha=alpha_arg, tikhonov_matrix=Ta))
             except RuntimeError as e:
                 # scipy's documented, loud refusal: default budget of 3 n active-set iterations exhausted (seen on badly
                 # scaled systems).  Nothing was returned, so nothing is judged; the documented **kwargs route is used to
@@ -436,7 +604,8 @@ def _run_nnls(case, ctx, W, b):
                 ctx.mon("nnls_maxiter_retry")
                 del rec[:]
                 try:
-                    res = invert_regularised_nnls(W, b, alpha=alpha, tikhonov_matrix=T, maxiter=50 * W.shape[1])
+                    res = _call(case, lambda: invert_regularised_nnls(Wa, ba, alpha=alpha_arg, tikhonov_matrix=Ta,
+                                                                      maxiter=50 * W.shape[1]))
                 except RuntimeError as e2:
                     if "Maximum number of iterations" not in str(e2):
                         raise
@@ -448,7 +617,7 @@ def _run_nnls(case, ctx, W, b):
         ctx.mon("zero_b")
         ctx.viol("nnls:zero-measurement-raises",
                  "invert_regularised_nnls raises ValueError when no measurement is positive (normalisation divides by "
-                 "max(d) = 0); the minimiser x = 0 exists", error=str(e)[:200])
+                 "max(d) = 0); the minimiser x = 0 exists", plain=True, error=str(e)[:200])
         return
     finally:
         so.nnls = orig
@@ -458,11 +627,11 @@ def _run_nnls(case, ctx, W, b):
     if not ctx.check(ok, "nnls:malformed-result", "result is not (ndarray (N_s,), float)", monitor="nnls_shape"):
         return
     x, rnorm = np.array(res[0], dtype=float), float(res[1])
-    ctx.check(np.array_equal(W, Wc) and np.array_equal(b, bc) and (T is None or np.array_equal(T, Tc)),
+    ctx.check(_unchanged(Wa, W) and _unchanged(ba, b) and (T is None or _unchanged(Ta, T)),
               "nnls:inputs-modified", "inputs modified by the solver", monitor="nnls_inputs")
     C, d = rm.stacked(W, b, alpha, T)
     g, rn, nC, nx, nd = rm.certificate(C, d, x)
-    tau = _tau(nC, nx, nd)
+    tau = _tau(nC, nx, nd, rtol)
     ctx.check(bool(np.all(np.isfinite(x))) and not bool((x < 0).any()), "nnls:negative-component",
               "NNLS solution has a negative or non-finite component", monitor="nnls_nonneg")
     xinf = float(np.max(np.abs(x))) if x.size else 0.0
@@ -480,19 +649,20 @@ def _run_nnls(case, ctx, W, b):
         A_s, y_s, x_s, rn_s = rec[0]
         if A_s.ndim == 2 and A_s.shape[1] == x_s.shape[0] and A_s.shape[0] == y_s.shape[0] and np.all(np.isfinite(A_s)):
             g_s, rnn_s, nC_s, nx_s, nd_s = rm.certificate(A_s, y_s, x_s)
-            tau_s = _tau(nC_s, nx_s, nd_s)
+            tau_s = _tau(nC_s, nx_s, nd_s, rtol)
             xinf_s = float(np.max(np.abs(x_s))) if x_s.size else 0.0
             vmax = float(d.max())
             # the wrapper did its documented job: handed over [W; alpha L]/max(d), [b; 0]/max(d) and returned scipy's x and
             # rnorm * max(d) unchanged -- only then can a failure be attributed to the third-party solver
-            faithful = (vmax > 0 and A_s.shape == C.shape and np.allclose(A_s * vmax, C, rtol=1e-12, atol=0.0)
-                        and np.allclose(y_s * vmax, d, rtol=1e-12, atol=0.0) and np.array_equal(x_s, x))
+            frt = 1e-12 if not single else 1e-5
+            faithful = (vmax > 0 and A_s.shape == C.shape and np.allclose(A_s * vmax, C, rtol=frt, atol=0.0)
+                        and np.allclose(y_s * vmax, d, rtol=frt, atol=0.0) and np.array_equal(x_s, x))
             faithful_rn = faithful and abs(rn_s * vmax - rnorm) <= 1e-12 * abs(rnorm)
             if tau_s > 0 and faithful:
                 upstream_kkt = bool(-g_s.min() > tau_s or (xinf_s > 0 and np.max(np.abs(x_s * g_s)) > tau_s * xinf_s))
-                upstream_rn = faithful_rn and bool(abs(rn_s - rnn_s) > 1e-8 * nd_s + 1e-10 * nC_s * nx_s)
+                upstream_rn = faithful_rn and bool(abs(rn_s - rnn_s) > relax * (1e-8 * nd_s + 1e-10 * nC_s * nx_s))
                 up_ratio = max(float(-g_s.min()) / tau_s, float(np.max(np.abs(x_s * g_s))) / (tau_s * xinf_s) if xinf_s > 0 else 0.0,
-                               abs(rn_s - rnn_s) / (1e-8 * nd_s + 1e-10 * nC_s * nx_s))
+                               abs(rn_s - rnn_s) / (relax * (1e-8 * nd_s + 1e-10 * nC_s * nx_s)))
     if 1e-3 < up_ratio <= 1.0:
         ctx.mon("nnls_upstream_degraded")   # within tolerance, but scipy itself far less accurate than usual (defect tail)
     if tau > 0 and max(dual, comp) <= 1.0 and up_ratio <= 1e-3:
@@ -503,13 +673,13 @@ def _run_nnls(case, ctx, W, b):
         j = int(np.argmin(g))
         ctx.viol("nnls:scipy-nnls-non-minimiser" if upstream_kkt else "nnls:kkt-dual-infeasible",
                  (src if upstream_kkt else "") + "gradient of |Cx-d|^2 has a negative component: increasing x_j lowers the "
-                 "objective, x is not the constrained minimiser", j=j, g_j=float(g[j]), tau=tau, x_j=float(x[j]))
+                 "objective, x is not the constrained minimiser", plain=upstream_kkt, j=j, g_j=float(g[j]), tau=tau, x_j=float(x[j]))
     if comp > 1.0:
         j = int(np.argmax(np.abs(x * g)))
         ctx.viol("nnls:scipy-nnls-non-minimiser" if upstream_kkt else "nnls:kkt-stationarity",
                  (src if upstream_kkt else "") + "a strictly positive component has a non-vanishing gradient: x is not the "
-                 "constrained minimiser", j=j, g_j=float(g[j]), x_j=float(x[j]), tau=tau)
-    t = 1e-8 * nd + 1e-10 * nC * nx
+                 "constrained minimiser", plain=upstream_kkt, j=j, g_j=float(g[j]), x_j=float(x[j]), tau=tau)
+    t = relax * (1e-8 * nd + 1e-10 * nC * nx)
     ctx.mon("nnls_rnorm")
     err = abs(rnorm - rn)
     if err <= t:
@@ -519,20 +689,20 @@ def _run_nnls(case, ctx, W, b):
         ctx.viol("nnls:scipy-nnls-rnorm-inconsistent" if upstream_rn else "nnls:residual-norm-inconsistent",
                  ("scipy.optimize.nnls itself reported a residual norm inconsistent with its own solution (passed through): "
                   if upstream_rn else "") + "reported residual norm differs from |Cx-d| of the returned x",
-                 got=rnorm, want=rn, tol=t)
+                 plain=upstream_rn, got=rnorm, want=rn, tol=t)
     ctx.nontrivial(bool(W.any()) and not bzero)
 
 
-def _run_lstsq(case, ctx, W, b):
+def _run_lstsq(case, ctx, W, b, Wa, ba):
     from cherab.tools.inversions import invert_regularised_lstsq
-    T = rm.build_tikhonov(case, W)
-    alpha = float(case["alpha"])
+    T, Ta, alpha, alpha_arg = _tik_alpha(case, W)
+    single = _f32(case, "W", "T")
+    rtol = GRAD_RTOL32 if single else GRAD_RTOL
+    relax = rtol / GRAD_RTOL
     ctx.cls("tik:" + case["tikkind"])
     ctx.cls("alpha:" + ("0" if alpha == 0 else "tiny" if alpha < 1e-6 else "pos"))
     bzero = not b.any()
-    with warnings.catch_warnings(), np.errstate(all="ignore"):
-        warnings.simplefilter("ignore")
-        res = invert_regularised_lstsq(W, b, alpha=alpha, tikhonov_matrix=T)
+    res = _call(case, lambda: invert_regularised_lstsq(Wa, ba, alpha=alpha_arg, tikhonov_matrix=Ta))
     if bzero:
         ctx.mon("zero_b")
     ok = (isinstance(res, tuple) and len(res) == 2 and isinstance(res[0], np.ndarray) and res[0].shape == (W.shape[1],)
@@ -543,13 +713,15 @@ def _run_lstsq(case, ctx, W, b):
     x = np.array(res[0], dtype=float)
     if not ctx.check(bool(np.all(np.isfinite(x))), "lstsq:non-finite", "solution has a non-finite component", monitor="lstsq_finite"):
         return
+    ctx.check(_unchanged(Wa, W) and _unchanged(ba, b) and (T is None or _unchanged(Ta, T)),
+              "lstsq:inputs-modified", "inputs modified by the solver", monitor="lstsq_inputs")
     C, d = rm.stacked(W, b, alpha, T)
     g, rn, nC, nx, nd = rm.certificate(C, d, x)
-    tau = _tau(nC, nx, nd)
+    tau = _tau(nC, nx, nd, rtol)
     ctx.close(g, np.zeros_like(g), "lstsq:normal-equations", "C^T(Cx-d) != 0: x is not a minimiser of |Wx-b|^2 + alpha^2|Lx|^2",
               atol=tau, monitor="lstsq_normal")
     if np.size(res[1]) == 1:
-        t = 1e-9 * nd + 1e-10 * nC * nx
+        t = relax * (1e-9 * nd + 1e-10 * nC * nx)
         ctx.close(float(res[1][0]), rn * rn, "lstsq:residual-inconsistent",
                   "reported sum of squared residuals differs from |Cx-d|^2 of the returned x",
                   atol=(2 * rn + t) * t, monitor="lstsq_residual")
@@ -558,14 +730,15 @@ def _run_lstsq(case, ctx, W, b):
     ctx.nontrivial(bool(W.any()) and not bzero)
 
 
-def _run_svd(case, ctx, W, b):
+def _run_svd(case, ctx, W, b, Wa, ba):
     from cherab.tools.inversions import invert_svd
     bzero = not b.any()
     m, n = W.shape
-    bc = b.copy()
-    with warnings.catch_warnings(), np.errstate(all="ignore"):
-        warnings.simplefilter("ignore")
-        x = invert_svd(W, b)
+    # scipy.linalg.pinv works in single precision for float32 and for the small dtypes LAPACK maps to 's' (bool, uint8)
+    single = case.get("reps", {}).get("W") in ("float32", "bool", "uint8")
+    rtol = GRAD_RTOL32 if single else GRAD_RTOL
+    eps = rm.EPS32 if single else rm.EPS
+    x = _call(case, lambda: invert_svd(Wa, ba))
     if bzero:
         ctx.mon("zero_b")
     ok = isinstance(x, np.ndarray) and x.shape == (n,)
@@ -573,17 +746,18 @@ def _run_svd(case, ctx, W, b):
                      shape=getattr(x, "shape", None)):
         return
     x = np.array(x, dtype=float)
-    ctx.check(np.array_equal(b, bc) and b.shape == bc.shape, "svd:inputs-modified", "measurement vector modified", monitor="svd_inputs")
+    ctx.check(_unchanged(Wa, W) and _unchanged(ba, b), "svd:inputs-modified", "geometry matrix or measurement vector modified "
+              "(values or shape)", monitor="svd_inputs")
     if not ctx.check(bool(np.all(np.isfinite(x))), "svd:non-finite", "solution has a non-finite component", monitor="svd_finite"):
         return
     g, rn, nC, nx, nd = rm.certificate(W, b, x)
-    tau = _tau(nC, nx, nd)
+    tau = _tau(nC, nx, nd, rtol)
     ctx.close(g, np.zeros_like(g), "svd:normal-equations", "W^T(Wx-b) != 0: x is not a least-squares solution",
               atol=tau, monitor="svd_normal")
     # minimum norm: x orthogonal to null(W); judged only when the numerical rank is unambiguous
     U, sv, Vt = np.linalg.svd(W, full_matrices=True)
     smax = float(sv[0]) if sv.size else 0.0
-    cut = max(m, n) * rm.EPS * smax
+    cut = max(m, n) * eps * smax
     svn = np.concatenate([sv, np.zeros(n - sv.size)])
     if smax > 0 and np.any((svn > 0.05 * cut) & (svn < 20 * cut)):
         ctx.skip("svd: numerical rank ambiguous (singular value within 20x of the pinv cut-off); minimum norm not judged")
@@ -592,7 +766,7 @@ def _run_svd(case, ctx, W, b):
         kept = svn[svn >= 20 * cut] if smax > 0 else np.array([])
         if null.shape[0]:
             gap = (smax / float(kept.min())) if kept.size else 1.0
-            tol = (1e-9 + 1e3 * rm.EPS * gap) * nx
+            tol = (0.1 * rtol + 1e3 * eps * gap) * nx
             ctx.close(null @ x, np.zeros(null.shape[0]), "svd:not-minimum-norm",
                       "solution has a component in the null space of W (not the Moore-Penrose solution)",
                       atol=tol, monitor="svd_min_norm")
